@@ -824,6 +824,13 @@ def gen_lvalue_write(node, code, codegen):
 
     assert isinstance(node, expr.Lvalue)
 
+    if node.implicit_decl and node.implicit_decl.type.is_array and \
+       not getattr(node, 'implicit_array_initialized', False):
+        # first use of an implicitly dimensioned array is as the
+        # target of INPUT, READ, ...
+        gen_static_array_init(node.implicit_decl, code, codegen)
+        node.implicit_array_initialized = True
+
     base_var = node.get_base_variable()
     if node.base_is_ref or base_var.type.is_array:
         gen_lvalue_ref(node, code, codegen)
@@ -1337,6 +1344,7 @@ def gen_assignment(node, code, codegen):
     if node.lvalue.implicit_decl and \
        node.lvalue.implicit_decl.type.is_array:
         gen_static_array_init(node.lvalue.implicit_decl, code, codegen)
+        node.lvalue.implicit_array_initialized = True
 
     codegen.gen_code_for_node(node.rvalue, code)
 
